@@ -311,6 +311,20 @@ func (h *Server) Finish(i int, r Resp) {
 	h.step(fmt.Sprintf("handler#%d returns", i))
 }
 
+// FinishMany lets several handlers return before the server runs again (one event).
+func (h *Server) FinishMany(idx []int, rs []Resp) {
+	n := 0
+	for k, i := range idx {
+		if i < len(h.Calls) && !h.Calls[i].Returned {
+			h.Calls[i].gate <- rs[k]
+			n++
+		}
+	}
+	if n > 0 {
+		h.step(fmt.Sprintf("%d handlers return", n))
+	}
+}
+
 // PeerClose: the peer closes the transport (one event).
 func (h *Server) PeerClose() {
 	h.C.PeerClose()
